@@ -6,12 +6,17 @@ import (
 
 	"vctl/internal/act"
 	"vctl/internal/e1"
+	"vctl/internal/e2"
 	"vctl/internal/grog"
 )
 
 var checks = map[string]func(string) int{
 	"C01": e1.RunC01,
 	"C02": e1.RunC02,
+	"C03": e2.RunC03,
+	"C04": e2.RunC04,
+	"C05": e1.RunC05,
+	"C13": e1.RunC13,
 }
 
 func warm() int {
@@ -52,6 +57,8 @@ func main() {
 			os.Exit(2)
 		}
 		os.Exit(f(tier))
+	case "driver":
+		os.Exit(driverCmd(os.Args[2:]))
 	case "warm":
 		os.Exit(warm())
 	default:
